@@ -59,6 +59,23 @@ let () =
         let kind = match atom k with "struct" -> M.KStruct | "enum" -> M.KEnum | _ -> failwith "c06: bad kind" in
         List [Atom "ok"; of_list of_str (M.c06_model_raw (str_ dfc) kind (list_ str_ ctoks) (list_ (pair_ str_ (list_ str_)) items))]
     | _ -> failwith "c06-eval-raw: bad case");
+  Registry.register "print" (fun s ->
+    (* (what type-name ((name bare opt value-text) ...)) -> the declaration text of Model/C06Print.v *)
+    let b_ x = (atom x = "true") in
+    let member_ x = match list x with
+      | [n; b; o; v] -> (str_ n, (b_ b, (b_ o, str_ v)))
+      | _ -> failwith "c06-print: bad member" in
+    match list s with
+    | [w; n; ms] ->
+        let ms = list_ member_ ms in
+        let names = List.map fst ms in
+        (match atom w with
+         | "interface" -> of_str (M.c06_interface_text (str_ n) ms)
+         | "zobject" -> of_str (M.c06_zobject_text (str_ n) ms)
+         | "alias" -> of_str (M.c06_alias_text (str_ n) names)
+         | "zenum" -> of_str (M.c06_zenum_text (str_ n) names)
+         | _ -> failwith "c06-print: bad kind")
+    | _ -> failwith "c06-print: bad case");
   Registry.register "keys" (fun s ->
     (* (type-name file-text) -> () when the file is outside the module grammar, else ((decls)) *)
     match list s with
